@@ -7,6 +7,7 @@ from ..report import AnalysisError
 from ..srcmodel import unparse, norm, walk_no_nested, calls_in
 from .common import is_method_call, cfg_of, get_kw, recv_of, name_defs, find_stmt_node
 from . import pathrules as pr
+from . import unitrules
 from . import containers as ct
 from . import tr
 from .. import pathbase
@@ -21,6 +22,7 @@ DECIDED = [
     'R3: direction and locality: !append/!extend call <fetched older node>.extend(self) with the appended list itself as argument and return the fetched node; lookups on the merge root use the node\'s own absolute path (path-base typing); !append raises when the target is missing, !extend falls back to a plain ConfigList(self).',
     'R4: ConfigList.extend appends every element in iteration order (loop of append).',
     'R5: the container premerge visits every child unconditionally: ComposedNode.on_premerge_impl is a single map_nodes over the direct children calling child.on_premerge(child_path, into).',
+    'R6: AppendNode / ExtendNode(value) evaluated on 7 value kinds: a scalar, str, bytes or None becomes the single element, a list / tuple is the content itself.',
 ]
 UNDECIDED = ['frame preservation and composition of several operators as data;', 'detaching a list *element* shifts its siblings (index arithmetic of detach-then-remerge; noted in DESIGN, not claimed).']
 PREMERGE_EXEMPT = {'ClearNode.ayns.on_premerge_impl': 'returns the node it just emptied; self-merge of an empty container is a no-op'}
@@ -341,11 +343,13 @@ def check(repo, run, tier):
     g(r3, repo, run)
     g(r4, repo, run)
     g(r5, repo, run)
+    g(unitrules.list_operator_init, repo, run, 'C16.R6')
     g.done()
 
 
 def mutants(repo):
     return [
+        Mutant('append-wraps-sequences', lambda r: in_func(r, 'AppendNode.__init__', "if not isinstance(value, Sequence) or isinstance(value, str) or isinstance(value, bytes):", "if not (not isinstance(value, Sequence) or isinstance(value, str) or isinstance(value, bytes)):"), ['C16.R6']),
         Mutant('extend-does-not-detach', lambda r: in_func(r, 'ExtendNode.ayns.on_premerge_impl', "            into.ayns.remove_node(path)\n", ""), ['C16.R1']),
         Mutant('prev-copies-instead-of-moving', lambda r: in_func(r, 'PrevNode.ayns.on_premerge_impl', "node = into.ayns.remove_node(self)", "node = into.ayns.get_node(self)"), ['C16.R1']),
         Mutant('F14-reverted-list-del-returns-last', lambda r: in_func(r, 'ConfigList._del',
